@@ -24,6 +24,7 @@ package cache
 //@   guarantee full_read: isnil(err) ==> lastReadN == 3*size
 //@   ensures contiguous: isnil(err) ==> fresh(hd.RootSum) && refof(hd.DataSum) == refof(hd.RootSum) && refof(hd.BodySum) == refof(hd.RootSum) &&
 //@      offof(hd.RootSum) == 0 && offof(hd.DataSum) == size && offof(hd.BodySum) == 2*size
+//@   assigns nothing
 
 // Open / Close wiring (C13).  The hash and the file are external; what is checked is that the
 // code compares the right things in the right order.  Ghost integers maintained by the
